@@ -6,6 +6,7 @@ import Lean.Data.Json
 import Lean.Elab.Deriving.FromToJson
 import NetflowModel.Export
 import NetflowModel.Common
+import NetflowModel.Spec.Stream
 namespace Netflow
 open Lean
 
@@ -36,6 +37,10 @@ instance (priority := high) instFromJsonBytes : FromJson Bytes :=
 deriving instance ToJson, FromJson for
   DataNumber, FieldValue, TField, V9Template, V9OptTemplate, IpTField, IpTemplate, IpOptTemplate,
   V9Body, V9Set, IpBody, IpSet, ErrKind, Packet, PState, Out, CommonFlow, Common
+
+deriving instance ToJson, FromJson for
+  Spec.VarForm, Spec.FieldBytes, Spec.V9FS, Spec.V9Msg, Spec.IpTemplateSpec, Spec.IpOptTemplateSpec,
+  Spec.IpFS, Spec.IpMsg, Spec.Msg
 
 /-- answer to a `parse` op -/
 structure ParseAns where
